@@ -85,7 +85,7 @@ m = {
  "setup_cmd": "./setup.sh",
  "hooks": {
    "guard": "paiml_copia_verif",
-   "enable": "rustc --cfg paiml_copia_verif via /verif/sim/.cargo/config.toml [build] rustflags; the harness builds /repo/src through a generated shadow manifest (sim/copia-shadow) and #[path]-includes /repo/src/bin/copia/main.rs",
+   "enable": "rustc --cfg paiml_copia_verif via /verif/sim/.cargo/config.toml [build] rustflags; the harness builds /repo/src through a generated shadow manifest (sim/copia-shadow) and #[path]-includes a line-for-line copy of /repo/src/bin/copia/*.rs made by harness/build.rs on every build from /repo's working tree, in which only the inherent file-system methods of std::path::Path (.exists() .is_dir() .metadata() ...) are renamed so that they resolve to the simulated file system",
    "baseline_off_cmd": baseline,
    "source_commits": ["1de5a9c", "4221c93", "a250ddf"],
    "add_only": True,
